@@ -3,7 +3,8 @@
    LangProofs.v, CookieProofs.v, C05Final.v.
    analyse_request / analyse_response : model of HttpProcessors::parse_request / parse_response
    render, wf, expect_*, known       : Spec/Http1Grammar.v *)
-From Coq Require Import List NArith.
+From Coq Require Import List NArith Bool.
+Import ListNotations.
 From HN Require Import Base.Bytes Base.Http1Text Model.Http1 Model.Lang Model.Http1Obs Spec.Http1Grammar
   Proofs.Http1Proofs Proofs.Http1ObsProofs Proofs.LangProofs Proofs.CookieProofs Proofs.C05Final.
 
@@ -57,11 +58,11 @@ Check C05_headers_roundtrip : forall m : msg, wf m = true ->
 Print Assumptions C05_headers_roundtrip.
 
 Theorem C05_lang_is_argmax_first : forall items : list lang_item,
-  items_ok items = true -> known_weight_ows items = false -> known_tag_case items = false ->
+  items_ok items = true -> known_upper_q items = false ->
   get_highest_quality_language (render_value (VLang items)) = spec_lang items.
 Proof. exact lang_is_argmax_first. Qed.
 Check C05_lang_is_argmax_first : forall items : list lang_item,
-  items_ok items = true -> known_weight_ows items = false -> known_tag_case items = false ->
+  items_ok items = true -> known_upper_q items = false ->
   get_highest_quality_language (render_value (VLang items)) = spec_lang items.
 Print Assumptions C05_lang_is_argmax_first.
 
@@ -70,19 +71,18 @@ Proof. exact cookie_split. Qed.
 Check C05_cookie_split : forall v : bytes, plain_ws v = true -> parse_cookies v = number_cookies (cookie_pairs v) O.
 Print Assumptions C05_cookie_split.
 
-(* 5. every known class contains a well-formed message that the unchanged code misreports *)
-Theorem C05_Known_method_refuted : exists m, known_method m = true /\ refuted m.
-Proof. exact Known_method_refuted. Qed.
-Print Assumptions C05_Known_method_refuted.
+(* 5. every known class contains a well-formed message that the unchanged code misreports
+      (the classes gate-methods, tag-case and weight-OWS were repaired in /repo by 4eff695, 050bdf8, b696a82
+       and are inside C05_request / C05_lang_is_argmax_first now) *)
 Theorem C05_Known_cookies_refuted : exists m, known_cookies m = true /\ refuted m.
 Proof. exact Known_cookies_refuted. Qed.
 Print Assumptions C05_Known_cookies_refuted.
-Theorem C05_Known_weight_ows_refuted : exists m, known_lang_ows m = true /\ refuted m.
-Proof. exact Known_weight_ows_refuted. Qed.
-Print Assumptions C05_Known_weight_ows_refuted.
-Theorem C05_Known_tag_case_refuted : exists m, known_lang_case m = true /\ refuted m.
-Proof. exact Known_tag_case_refuted. Qed.
-Print Assumptions C05_Known_tag_case_refuted.
+Theorem C05_Known_upper_q_refuted : exists m, known_lang m = true /\ refuted m.
+Proof. exact Known_upper_q_refuted. Qed.
+Print Assumptions C05_Known_upper_q_refuted.
+Example C05_repaired_classes_inside :
+  forallb (fun m => wf m && negb (known m)) [w_method; w_weight_ows; w_tag_case] = true.
+Proof. exact repaired_classes_ok. Qed.
 
 (* 6. the hypotheses are satisfiable on non-trivial messages *)
 Example C05_request_hypotheses : wf ex_request = true /\ known ex_request = false /\ is_request ex_request = true.
